@@ -9,7 +9,7 @@ Ltac solve_same :=
 Lemma check_total_pending_same : forall p s v d s', check_total_pending p s v d = Some s' -> same s s'.
 Proof.
   unfold check_total_pending; intros p s v d s' H.
-  break_match; inv H. solve_same.
+  repeat (break_match; try discriminate); inv H; solve_same.
 Qed.
 
 (* the pending handlers move the value of a create / deposit / delegation-add
